@@ -278,19 +278,19 @@ def units(tier):
                         us.append({"name": "conc keys=%s maxsize=%s cancel=%s fail=%s" % ("".join(map(str, keys)), maxsize, cancel, failkey),
                                    "fn": _conc_impl,
                                    "params": {"keys": list(keys), "maxsize": maxsize, "cancel": cancel, "failkey": failkey, "T": T, "J": 1 if quick else 2},
-                                   "budget_s": 100 if quick else 1200})
+                                   "budget_s": 240 if quick else 1200})
     if not quick:
         for keys in _partitions(3):
             us.append({"name": "conc-eager keys=%s maxsize=1" % "".join(map(str, keys)), "fn": _conc_impl,
                        "params": {"keys": list(keys), "maxsize": 1, "cancel": 0, "eager": True, "failkey": 0, "T": 1}, "budget_s": 900})
     us.append({"name": "conc keys=001 maxsize=1 always_checkpoint", "fn": _conc_impl,
-               "params": {"keys": [0, 0, 1], "maxsize": 1, "always_checkpoint": True, "cancel": 0, "T": 1, "J": 1}, "budget_s": 100 if quick else 900})
+               "params": {"keys": [0, 0, 1], "maxsize": 1, "always_checkpoint": True, "cancel": 0, "T": 1, "J": 1}, "budget_s": 240 if quick else 900})
     if quick:
-        us.append({"name": "seq n=4", "fn": seq, "params": {"ncalls": 4, "with_ttl": False}, "budget_s": 100})
-        us.append({"name": "seq n=3 ttl", "fn": seq, "params": {"ncalls": 3, "with_ttl": True, "K": 1, "G": 2, "M": 2}, "budget_s": 100})
-        us.append({"name": "seq n=2 typed", "fn": seq, "params": {"ncalls": 2, "with_ttl": False, "typed": True, "floats": True, "K": 1, "M": 2}, "budget_s": 100})
-        us.append({"name": "seq n=2 typed kwargs", "fn": seq, "params": {"ncalls": 2, "with_ttl": False, "typed": True, "floats": True, "K": 1, "M": 2, "kw": True}, "budget_s": 100})
-        us.append({"name": "seq n=2 untyped-floats", "fn": seq, "params": {"ncalls": 2, "with_ttl": False, "typed": False, "floats": True, "K": 1, "M": 2}, "budget_s": 100})
+        us.append({"name": "seq n=4", "fn": seq, "params": {"ncalls": 4, "with_ttl": False}, "budget_s": 240})
+        us.append({"name": "seq n=3 ttl", "fn": seq, "params": {"ncalls": 3, "with_ttl": True, "K": 1, "G": 2, "M": 2}, "budget_s": 240})
+        us.append({"name": "seq n=2 typed", "fn": seq, "params": {"ncalls": 2, "with_ttl": False, "typed": True, "floats": True, "K": 1, "M": 2}, "budget_s": 240})
+        us.append({"name": "seq n=2 typed kwargs", "fn": seq, "params": {"ncalls": 2, "with_ttl": False, "typed": True, "floats": True, "K": 1, "M": 2, "kw": True}, "budget_s": 240})
+        us.append({"name": "seq n=2 untyped-floats", "fn": seq, "params": {"ncalls": 2, "with_ttl": False, "typed": False, "floats": True, "K": 1, "M": 2}, "budget_s": 240})
     else:
         us.append({"name": "seq n=5", "fn": seq, "params": {"ncalls": 5, "with_ttl": False}, "budget_s": 1500})
         us.append({"name": "seq n=4 ttl", "fn": seq, "params": {"ncalls": 4, "with_ttl": True, "K": 1, "G": 3, "M": 2}, "budget_s": 1500})
